@@ -93,6 +93,12 @@ impl Config {
 	}
 
 	pub fn get_hook(&self, name: &str) -> Result<Vec<hooks::Hook>, Error> {
+		self.get_hook_rec(name, &mut vec![])
+	}
+
+	// `groups` holds the names of the groups being expanded: a group that is (directly
+	// or not) one of its own members would otherwise be expanded for ever.
+	fn get_hook_rec(&self, name: &str, groups: &mut Vec<String>) -> Result<Vec<hooks::Hook>, Error> {
 		for hook in self.hook.iter() {
 			if name == hook.name {
 				let h = hooks::Hook {
@@ -112,11 +118,16 @@ impl Config {
 		}
 		for grp in self.group.iter() {
 			if name == grp.name {
+				if groups.iter().any(|g| g == name) {
+					return Err(format!("{name}: hook group includes itself").into());
+				}
+				groups.push(name.to_string());
 				let mut ret = vec![];
 				for hook_name in grp.hooks.iter() {
-					let mut h = self.get_hook(hook_name)?;
+					let mut h = self.get_hook_rec(hook_name, groups)?;
 					ret.append(&mut h);
 				}
+				groups.pop();
 				return Ok(ret);
 			}
 		}
